@@ -26,8 +26,8 @@ import (
 	cryptocli "github.com/33cn/chain33/common/crypto/client"
 	_ "github.com/33cn/chain33/system/address" // btc, btcMultiSign, eth drivers
 	"github.com/33cn/chain33/system/address/btc"
-	_ "github.com/33cn/chain33/system/crypto/init"
 	"github.com/33cn/chain33/system/crypto/ed25519"
+	_ "github.com/33cn/chain33/system/crypto/init"
 	"github.com/33cn/chain33/system/crypto/secp256k1"
 	"github.com/33cn/chain33/system/dapp"
 	"github.com/33cn/chain33/types"
@@ -192,19 +192,19 @@ func genConf(c *lib.Ctx, ci int) conf {
 	cf := conf{Name: fmt.Sprintf("conf%d", ci)}
 	switch ci % 3 {
 	case 0: // the configuration of the design note: eth addresses from height 100
-		cf.AddrEnable = map[string]int64{"btc": 0, "btcMultiSign": 0, "eth": 100}
+		cf.AddrEnable = map[string]int64{"btc": 0, "btcMultiSign": 0, "eth": 100, "utxo": 0}
 		cf.CryptoEnable = map[string]int64{"secp256k1": 0, "ed25519": 70}
 		cf.Forks = map[string]int64{"ForkMultiSignAddress": 60, "ForkBase58AddressCheck": 80, address.ForkFormatAddressKey: 150}
 		cf.ExecEnable = 90
 	case 1: // multisig driver late, eth never (by height), format fork early
-		cf.AddrEnable = map[string]int64{"btc": 0, "btcMultiSign": 40, "eth": -1}
+		cf.AddrEnable = map[string]int64{"btc": 0, "btcMultiSign": 40, "eth": -1, "utxo": 55}
 		cf.CryptoEnable = map[string]int64{"secp256k1": 35, "ed25519": 0}
 		cf.Forks = map[string]int64{"ForkMultiSignAddress": 120, "ForkBase58AddressCheck": 20, address.ForkFormatAddressKey: 30}
 		cf.ExecEnable = 0
 	default:
 		hs := []int64{0, 25, 50, 75, 110, 160, 240}
 		pick := func() int64 { return lib.Pick(r, hs) }
-		cf.AddrEnable = map[string]int64{"btc": 0, "btcMultiSign": pick(), "eth": lib.Pick(r, []int64{25, 50, 110, 160})}
+		cf.AddrEnable = map[string]int64{"btc": 0, "btcMultiSign": pick(), "eth": lib.Pick(r, []int64{25, 50, 110, 160}), "utxo": lib.Pick(r, []int64{0, -1, 75})}
 		cf.CryptoEnable = map[string]int64{"secp256k1": pick(), "ed25519": lib.Pick(r, []int64{-1, 50, 75, 160})}
 		cf.Forks = map[string]int64{"ForkMultiSignAddress": pick(), "ForkBase58AddressCheck": pick(), address.ForkFormatAddressKey: lib.Pick(r, []int64{25, 75, 160, 240})}
 		cf.ExecEnable = pick()
@@ -300,6 +300,7 @@ func genPool(c *lib.Ctx, ci int) (addrs, pubs, txs []input) {
 		input{"addr", "l0OI-not-base58", "string with non-base58 characters"},
 		input{"addr", address.ExecAddress("vexec"), "address of the registered executor vexec"},
 		input{"addr", "0x" + strings.ToUpper(hex.EncodeToString(r.Bytes(20))), "random eth address (upper-case hex)"},
+		input{"addr", hex.EncodeToString(r.Bytes(32)) + ":1", "utxo outpoint txhash:1"},
 	)
 	mkTx := func(priv crypto.PrivKey, cryptoID, addrID int32, label string, tamper bool) {
 		tx := &types.Transaction{Execer: []byte("none"), Payload: r.Bytes(12), Fee: 1000000, Nonce: r.Int63(), To: addrs[0].In}
@@ -452,7 +453,15 @@ func (rn *runner) mismatch(idx int, cf conf, hist []query, pos int, got string, 
 	rn.reports[pre]++
 	k := rn.reports[pre]
 	rn.mu.Unlock()
-	if k > 2 {
+	// beyond the first two of a class a mismatch is only counted when the history contains the usual trigger (the
+	// same question about the same input at another height, earlier); every other mismatch is always minimised
+	trigger := false
+	for i := 0; i < pos; i++ {
+		if hist[i].Kind == q.Kind && hist[i].In == q.In && hist[i].ID == q.ID && hist[i].H != q.H {
+			trigger = true
+		}
+	}
+	if k > 2 && trigger {
 		rn.c.Count("mismatches_beyond_minimisation_budget", 1)
 		return
 	}
@@ -549,8 +558,8 @@ func run(c *lib.Ctx) {
 		"each asked at heights on both sides of every boundary (and -1) in adversarial orders; a history runs three passes in one process and once permuted in another; every distinct query is also put to R fresh processes. " +
 		"non-trivial history = measured: it asks one input at two heights whose fresh answers differ (a boundary that matters) and the later question was answered after the earlier one in the same process")
 	c.Assume("the node's current block height (crypto context) is the height the question is about", "sm2/secp256r1 signatures are randomised and therefore not part of the generated transactions")
-	nConf := c.N(3, 9)
-	nHist := c.N(10, 110)
+	nConf := c.N(3, 6)
+	nHist := c.N(10, 100)
 	// fresh processes per distinct query: address checks (several drivers may reject one input) get more than the rest
 	R := 2
 	if !c.Quick() {
@@ -581,7 +590,14 @@ func run(c *lib.Ctx) {
 				continue
 			}
 			r := c.CaseRng("history", idx)
-			qs := genHistory(r, cf, addrs, pubs, txs, true)
+			// even histories never reuse a TransactionCache memo object (clean stratum w.r.t. F-C19-4), odd ones do
+			withMemo := hi%2 == 1
+			qs := genHistory(r, cf, addrs, pubs, txs, withMemo)
+			if withMemo {
+				c.Count("histories_memo_stratum", 1)
+			} else {
+				c.Count("histories_clean_stratum", 1)
+			}
 			hists = append(hists, hcase{idx: idx, qs: qs, perm: r.Perm(len(qs))})
 			for _, q := range qs {
 				if distinct[q.key()] == nil {
